@@ -60,16 +60,33 @@ func (u *siUnit) visible() (int, bool) {
 }
 
 type standin struct {
-	id    string
-	mu    sync.Mutex
-	units map[string]*siUnit
-	n     int
+	id       string
+	mu       sync.Mutex
+	units    map[string]*siUnit
+	n        int
+	conns    int
+	BadHello int // connections greeted with another node's name (connectToRemote must refuse and retry)
+	Dropped  int // status connections closed in the middle of the polling (monitorRemoteStatus must reconnect)
+	Gone     int // "unknown work unit" answers
 }
 
 func (s *standin) serve(conn net.Conn) {
 	defer conn.Close()
+	s.mu.Lock()
+	s.conns++
+	bad := s.conns%6 == 0
+	if bad {
+		s.BadHello++
+	}
+	s.mu.Unlock()
+	if bad {
+		_, _ = conn.Write([]byte("Receptor Control, node somebody-else\n"))
+		time.Sleep(50 * time.Millisecond)
+		return
+	}
 	_, _ = conn.Write([]byte(fmt.Sprintf("Receptor Control, node %s\n", s.id)))
 	reader := bufio.NewReader(conn)
+	statusReplies := 0
 	for {
 		line, err := reader.ReadString('\n')
 		if err != nil {
@@ -81,9 +98,19 @@ func (s *standin) serve(conn net.Conn) {
 			s.mu.Lock()
 			u := s.units[strings.TrimPrefix(line, "work status ")]
 			s.mu.Unlock()
-			if u == nil {
-				_, _ = conn.Write([]byte("ERROR: unknown work unit\n"))
+			if u == nil || (u.Mode == "gone" && time.Since(u.Created) > 1800*time.Millisecond) {
+				s.mu.Lock()
+				s.Gone++
+				s.mu.Unlock()
+				_, _ = conn.Write([]byte("ERROR: unknown work unit " + strings.TrimPrefix(line, "work status ") + "\n"))
 				continue
+			}
+			statusReplies++
+			if statusReplies%4 == 0 {
+				s.mu.Lock()
+				s.Dropped++
+				s.mu.Unlock()
+				return // the connection breaks before the answer
 			}
 			vis, fin := u.visible()
 			st := map[string]interface{}{"State": 1, "Detail": "Running: PID 4242", "StdoutSize": vis, "WorkType": "emit", "ExtraData": nil}
@@ -114,7 +141,7 @@ func (s *standin) serve(conn net.Conn) {
 				s.mu.Lock()
 				u := s.units[id]
 				s.mu.Unlock()
-				if u == nil {
+				if u == nil || (u.Mode == "gone" && time.Since(u.Created) > 1800*time.Millisecond) {
 					_, _ = conn.Write([]byte("ERROR: unknown work unit\n"))
 					return
 				}
@@ -198,7 +225,7 @@ func (s *standin) results(conn net.Conn, u *siUnit, pos int) {
 
 func standinModes(c *Ctx) []string {
 	hl := len("Streaming results for work unit sTaNd0000\n")
-	modes := []string{"joined", "joined", "plain"}
+	modes := []string{"joined", "joined", "plain", "gone"}
 	if c.Thorough() {
 		for k := 1; k < hl; k++ {
 			modes = append(modes, fmt.Sprintf("split%d", k))
@@ -257,6 +284,7 @@ func runStandin(c *Ctx, sh *shared, dir string) {
 		converged          bool
 		notPrefix          string
 		local              []byte
+		goneSize           int64
 	}
 	runs := make([]*run, len(modes))
 	var wg sync.WaitGroup
@@ -283,7 +311,14 @@ func runStandin(c *Ctx, sh *shared, dir string) {
 					r.notPrefix = fmt.Sprintf("local stdout (%d bytes) is not a prefix of the remote output (mode %s)", len(b), r.mode)
 					return
 				}
-				if len(b) == standinSize {
+				if r.mode == "gone" {
+					// the remote unit disappears: the local unit must end Failed, keeping a prefix
+					if st, err := WorkStatus(a.Sock, unitA, 3*time.Second); err == nil && stateOf(st) == 3 {
+						r.converged = true
+						r.goneSize = sizeOf(st)
+						return
+					}
+				} else if len(b) == standinSize {
 					if st, err := WorkStatus(a.Sock, unitA, 3*time.Second); err == nil && stateOf(st) == 2 && sizeOf(st) == standinSize {
 						if ed, ok := st["ExtraData"].(map[string]interface{}); ok {
 							r.unitB, _ = ed["RemoteUnitID"].(string)
@@ -315,6 +350,21 @@ func runStandin(c *Ctx, sh *shared, dir string) {
 		if !r.converged {
 			continue
 		}
+		if r.mode == "gone" {
+			// what is left of a unit whose remote unit is gone: its record says Failed with the size
+			// the remote last reported, its stdout holds what had been mirrored; asking for the results
+			// yields that prefix (whether the stream then ends is recorded, not judged: the recorded
+			// size can never be sent)
+			got, ended, err := WorkResults(a.Sock, r.unitA, 0, 4*time.Second)
+			b, _ := os.ReadFile(filepath.Join(a.UnitDir(r.unitA), "stdout"))
+			sh.mu.Lock()
+			sh.im.Extra["standin:gone"] = map[string]interface{}{"recorded_size": r.goneSize, "local_bytes": len(b), "results_bytes": len(got), "results_ended": ended, "err": fmt.Sprint(err)}
+			if err == nil && !bytes.Equal(got, b) {
+				sh.im.Violate(fmt.Sprintf("results of a unit whose remote unit is gone: %d bytes, local stdout holds %d", len(got), len(b)), "results-wrong-bytes", rep)
+			}
+			sh.mu.Unlock()
+			continue
+		}
 		for _, p := range []int{0, 1, 1500, standinSize - 1, standinSize, standinSize + 1} {
 			got, ended, err := WorkResults(a.Sock, r.unitA, int64(p), 6*time.Second)
 			var w []byte
@@ -337,6 +387,9 @@ func runStandin(c *Ctx, sh *shared, dir string) {
 	// header cases: what the stand-in wrote on each stream, what the mirror appended
 	si.mu.Lock()
 	defer si.mu.Unlock()
+	sh.mu.Lock()
+	sh.im.Extra["standin:faults"] = map[string]interface{}{"connections": si.conns, "greeted_with_another_name": si.BadHello, "status_connections_dropped": si.Dropped, "unknown_unit_answers": si.Gone}
+	sh.mu.Unlock()
 	for _, r := range runs {
 		u := si.units[r.unitB]
 		if u == nil || !r.converged {
